@@ -383,6 +383,10 @@ func (p *printer) expr(e *E) string {
 		return p.funcLit(e.Lit)
 	case "bin":
 		pr := precOf[e.Op]
+		if (e.Op == "==" || e.Op == "!=") && e.R.K == "zero" && e.L.K == "var" && len(e.L.Name)%2 == 0 {
+			// every second comparison with nil is written nil == x
+			return "nil " + e.Op + " " + p.sub(e.L, pr, true)
+		}
 		l := p.sub(e.L, pr, false)
 		sep := " "
 		if e.Break && !p.goMode {
